@@ -155,7 +155,8 @@ def louvain[S](
     # Calculate final modularity
     modularity = 0.0
     for comm in communities:
-        edges_within = sum(adj[v].get(w, 0.0) for v in comm for w in comm if v < w)
+        # every undirected edge is met from both ends; labels need not be orderable
+        edges_within = sum(adj[v].get(w, 0.0) for v in comm for w in comm if v != w) / 2
         comm_deg = sum(degree[v] for v in comm)
         modularity += edges_within / total_weight - resolution * (comm_deg / (2 * total_weight)) ** 2
 
